@@ -8,9 +8,12 @@
     reread_nostrip reread_strip strip_commutes_escape site_yields_plain markup_add_escapes
     structure_preserved_partial render_stream_ok hole_is_data emit_both_implementations markup_format_site
     payload_is_data structure_preserved_markup_partial reread_wellnested
-    attrs_site_partial attrs_site_none_removes attrs_site_others_untouched attrs_blank_dropped
+    attrs_site attrs_site_none_removes attrs_site_others_untouched attrs_blank_kept
     script_text_is_raw div_text_is_escaped attr_name_not_escaped pre_keeps_whitespace div_normalises_whitespace
     text_cr_not_recovered_xml attr_lf_not_recovered_xml control_char_not_wellformed_xml
+    cache_unobservable noescape_cleared_by_end site_after_end_is_escaped escaping_by_enclosing_elements
+    two_scripts_then_site_escaped empty_script_keeps_escaping
+    structure_preserved_markup_strip_partial markup_attr_newline_normalised reread_tree
 -/
 import Genshi.Lemmas.Subst
 import Genshi.Lemmas.SubstTmpl
@@ -19,6 +22,9 @@ import Genshi.Lemmas.SubstFmt
 import Genshi.Lemmas.SubstNonInt
 import Genshi.Lemmas.SubstSplice
 import Genshi.Lemmas.SubstNest
+import Genshi.Lemmas.SubstCache
+import Genshi.Lemmas.SubstSpliceWs
+import Genshi.Lemmas.SubstTree
 namespace Genshi.Props.C01
 open Genshi.Escape Genshi.Str Genshi.Subst
 
@@ -350,25 +356,21 @@ theorem items_map_names (env : Env) (items : List (Subst.Name × Atom)) :
       = items.map (·.1) := by
   simp [List.map_map, Function.comp_def]
 
-/-- `py:attrs`, full statement (FALSE for the code, witness `attrs_blank_dropped`):
-      a name whose value is not `None` carries that value, surrounding white space trimmed.
-    Proved with the excluding hypothesis: the trimmed value is not empty.
+/-- `py:attrs`, full statement: a name whose value is not `None` carries that value, surrounding
+    white space trimmed — also when nothing is left after trimming (fix ce82919; before it the
+    attribute was dropped, finding C01-attrs-blank-dropped).
     (The names of the expression are distinct, as the keys of a dictionary are.) -/
-theorem attrs_site_partial (env : Env) (attrs : List (Subst.Name × AttrSpec)) (items : List (Subst.Name × Atom))
+theorem attrs_site (env : Env) (attrs : List (Subst.Name × AttrSpec)) (items : List (Subst.Name × Atom))
     (n : Subst.Name) (a : Atom) (hmem : (n, a) ∈ items) (hnd : (items.map (·.1)).Nodup)
-    (hv : evalAtom env a ≠ .none) (hnb : pyStrip (pyStr (evalAtom env a)) ≠ []) :
+    (hv : evalAtom env a ≠ .none) :
     (n, pyStrip (pyStr (evalAtom env a))) ∈ evalAttrs env (applyPyAttrs env attrs items) := by
   have hsv : stripValue (evalAtom env a) = some (pyStrip (pyStr (evalAtom env a))) := by
-    have hne : (pyStrip (pyStr (evalAtom env a))).isEmpty = false := by
-      cases h : pyStrip (pyStr (evalAtom env a)) with
-      | nil => exact absurd h hnb
-      | cons _ _ => rfl
     cases hx : evalAtom env a with
     | none => exact absurd hx hv
-    | str s => simp only [hx] at hne; simp [stripValue, hne]
-    | markup s => simp only [hx] at hne; simp [stripValue, hne]
-    | num s => simp only [hx] at hne; simp [stripValue, hne]
-    | obj s h => simp only [hx] at hne; simp [stripValue, hne]
+    | str s => rfl
+    | markup s => rfl
+    | num s => rfl
+    | obj s h => rfl
   rw [mem_evalAttrs]
   refine ⟨.static (pyStrip (pyStr (evalAtom env a))), ?_, rfl⟩
   unfold applyPyAttrs
@@ -381,10 +383,11 @@ theorem attrs_site_partial (env : Env) (attrs : List (Subst.Name × AttrSpec)) (
   · exact List.mem_map.mpr ⟨(n, a), hmem, by simp [hsv]⟩
   · rw [items_map_names]; exact hnd
 
-/-- `None` — and, as the code is, a value that is blank after trimming — removes the attribute. -/
+/-- `None` removes the attribute. -/
 theorem attrs_site_none_removes (env : Env) (attrs : List (Subst.Name × AttrSpec)) (items : List (Subst.Name × Atom))
-    (n : Subst.Name) (a : Atom) (hmem : (n, a) ∈ items) (hv : stripValue (evalAtom env a) = none) :
+    (n : Subst.Name) (a : Atom) (hmem : (n, a) ∈ items) (hv0 : evalAtom env a = .none) :
     ∀ p ∈ evalAttrs env (applyPyAttrs env attrs items), p.1 ≠ n := by
+  have hv : stripValue (evalAtom env a) = none := by rw [hv0]; rfl
   intro p hp hpn
   obtain ⟨k, v⟩ := p
   simp only at hpn
@@ -418,10 +421,10 @@ theorem attrs_site_others_untouched (env : Env) (attrs : List (Subst.Name × Att
     · rintro ⟨sp, h1, h2⟩
       exact ⟨sp, (gOr_untouched attrs _ n sp hno').mpr h1, h2⟩
 
-/-- witness (finding C01-attrs-blank-dropped): `<a py:attrs="{'title': ' '}"/>` has no `title` -/
-theorem attrs_blank_dropped :
+/-- regression witness (C01-attrs-blank-dropped, fixed): `<a py:attrs="{'title': ' '}"/>` has an empty `title` -/
+theorem attrs_blank_kept :
     renderNode [] (.el ['a'] [] (some [(['t', 'i', 't', 'l', 'e'], .lit (.str [' ']))]) [])
-      = [.start ['a'] [], .end_ ['a']] := by decide
+      = [.start ['a'] [(['t', 'i', 't', 'l', 'e'], [])], .end_ ['a']] := by decide
 
 /-! ## the composition -/
 
@@ -432,8 +435,7 @@ theorem attrs_blank_dropped :
     re-reading the rendered output gives the skeleton of the template with every value that is
     not marked safe as character data or attribute value, verbatim (trimmed at `py:attrs`),
     except inside script/style under html and inside CDATA.
-    The full statement is FALSE of the code: `attrs_blank_dropped` (py:attrs drops blank values),
-    `attr_lf_not_recovered_xml`, `text_cr_not_recovered_xml`, `control_char_not_wellformed_xml`
+    The full statement is FALSE of the code: `attr_lf_not_recovered_xml`, `text_cr_not_recovered_xml`, `control_char_not_wellformed_xml`
     (what a conforming XML processor does to TAB/LF/CR and non-Char characters).
 
     PROVED: for every template of the grammar, every environment, all three methods and both
@@ -450,10 +452,10 @@ theorem attrs_blank_dropped :
     by `hole_is_data`), values *marked safe* are plain escaped text (the property does not constrain
     safe values, but a safe value with tags puts the whole template outside this theorem);
     `listOk` — operands of `Markup` operators are str / Markup / `__html__` objects and `%` does
-    not raise (domain of C18).  `py:attrs` is covered as the code is (blank values dropped); its
-    value-level statement is `attrs_site_partial`.  XML-level normalisation is outside `readDoc`;
+    not raise (domain of C18).  `py:attrs` is covered as the code is (only `None` removes); its
+    value-level statement is `attrs_site`.  XML-level normalisation is outside `readDoc`;
     see `text_roundtrip_xml_partial` / `attr_roundtrip_xml_partial`. -/
-theorem structure_preserved_partial (m : Method) (strip : Bool) (T : List Node) (env : Env)
+theorem structure_preserved_partial (m : Method) (strip : Bool) (T : List Subst.Node) (env : Env)
     (hT : nodesOkB m T = true) (hdom : listOk env T = true) (henv : EnvOk env) :
     readDoc m (serialize m strip (renderList env T)) =
       some (if strip then coalesceStrip m (expectedList env T) else coalesce (expectedList env T)) := by
@@ -530,14 +532,41 @@ theorem emit_both_implementations (m : Method) (v : List Char) :
     `%`, not void under html, the operands are plain strings of the context, and there are as many
     as holes.  MISSING: `strip_whitespace=True` for these sites (the filter normalises the whole text
     run, attribute values inside the author's tags included), mapping operands, safe *values* with tags. -/
-theorem structure_preserved_markup_partial (m : Method) (T : List Node) (env : Env)
+theorem structure_preserved_markup_partial (m : Method) (T : List Subst.Node) (env : Env)
     (hT : nodesOkM m T = true) (hdom : listOk env T = true) (henv : EnvOk env) :
     readDoc m (serialize m false (renderList env T)) = some (coalesce (expectedList env T)) :=
   (list_sem m T env hT hdom henv).read
 
+/-- **… and with whitespace stripping.**  The `WhitespaceFilter` buffers the `Markup` text of such a
+    site together with the character data around it and normalises the run in one piece — the author's
+    tags included.  Both regular expressions only look at the following character, so a tag (it starts
+    with `<`, ends with `>` and holds no newline) splits the run: `normWs (X ++ tag ++ W) = normWs X ++
+    tag ++ normWs W` (`normWs_tag`), and the text is written exactly as its tags would be written as
+    elements (`SameOutS.splice`).  Re-reading gives the author's elements and the template's, every
+    operand and every other substituted value verbatim up to the documented normalisation of
+    character data outside `pre`/`textarea` (`coalesceStrip`).
+    Hypotheses: `nodesOkW` = `nodesOkM` plus, for these sites: the author's elements are not
+    whitespace-preserving ones (the filter does not see them as elements), their tags are balanced,
+    and no attribute value inside them — literal or operand — holds a newline (FALSE without it:
+    the filter's normalisation reaches into the value, witness `markup_attr_newline_normalised`).
+    MISSING: mapping operands, `+`/`join` with tagged author markup, safe *values* with tags. -/
+theorem structure_preserved_markup_strip_partial (m : Method) (T : List Subst.Node) (env : Env)
+    (hT : nodesOkW m T = true) (hdom : listOk env T = true) (henv : EnvOk env) :
+    readDoc m (serialize m true (renderList env T)) = some (coalesceStrip m (expectedList env T)) :=
+  (list_semS m T env hT hdom henv).read
+
+/-- `<p>${Markup('<a title="%s">x</a>') % ('a \n\nb',)}</p>` rendered with whitespace stripping: the value comes
+    back as `a\nb` — the filter normalised inside the attribute value (why the hypothesis is there) -/
+theorem markup_attr_newline_normalised :
+    readDoc .xml (serialize .xml true (renderList []
+      [.el ['p'] [] none [.site (.fmtp [.open ['a'] [(['t'], .hole)], .text ['x'], .close ['a']]
+        [.lit (.str ['a', ' ', '\n', '\n', 'b'])])]]))
+      = some [.start ['p'] [], .start ['a'] [(['t'], ['a', '\n', 'b'])], .text ['x'] false, .end_ ['a'], .end_ ['p']] := by
+  decide
+
 /-- **What is re-read is a well-nested forest**: every END closes the innermost open START of the
     same name and nothing stays open — the element *tree* of the template, not just a sequence of tags. -/
-theorem reread_wellnested (m : Method) (strip : Bool) (T : List Node) (env : Env)
+theorem reread_wellnested (m : Method) (strip : Bool) (T : List Subst.Node) (env : Env)
     (hT : nodesOkB m T = true) (hdom : listOk env T = true) (henv : EnvOk env) :
     ∃ out, readDoc m (serialize m strip (renderList env T)) = some out ∧ nest [] out = some [] := by
   refine ⟨_, structure_preserved_partial m strip T env hT hdom henv, ?_⟩
@@ -546,26 +575,38 @@ theorem reread_wellnested (m : Method) (strip : Bool) (T : List Node) (env : Env
   | false => simpa [nest_coalesce] using hb
   | true => simpa [nest_coalesceStrip] using hb
 
+/-- **The result as a tree.**  The re-read events, embedded into the shared event type (`toCore`: plain
+    names), are the flattening of exactly one forest of `Core.Node`s: the element *tree* of the template
+    with the substituted values as text leaves and attribute values. -/
+theorem reread_tree (m : Method) (strip : Bool) (T : List Subst.Node) (env : Env)
+    (hT : nodesOkB m T = true) (hdom : listOk env T = true) (henv : EnvOk env) :
+    ∃ out forest, readDoc m (serialize m strip (renderList env T)) = some out ∧
+      okList forest = true ∧ flattenList forest = out.map toCore ∧
+      ∀ other, okList other = true → flattenList other = out.map toCore → other = forest := by
+  obtain ⟨out, h1, h2⟩ := reread_wellnested m strip T env hT hdom henv
+  obtain ⟨forest, ⟨h3, h4⟩, h5⟩ := Genshi.Parse.wellNested_unique_forest _ (wellNested_toCore out h2)
+  exact ⟨out, forest, h1, h3, h4, h5⟩
+
 /-- **Template data cannot change the structure** (non-interference).  Replace the text of
     every value that is not marked safe — every `str`, the `__str__` of every object, in the
     environment and in the template's context values — by anything at all (`retext f`: the
     lengths of sequences, `None`-ness and the kinds of values stay): the elements, their order
     and nesting, and their attribute *names*, as re-read from the rendered output, are the same.
     (`tagsOf` erases character data and attribute values.)
-    Hypotheses: those of `structure_preserved_partial`, and `KeepsBlank f` — `f` does not make a
-    `py:attrs` value blank or non-blank (the one place where the text of a value decides whether
-    an attribute exists: finding C01-attrs-blank-dropped). -/
-theorem payload_is_data (m : Method) (strip : Bool) (T : List Node) (env : Env) (f : List Char → List Char)
-    (hT : nodesOkB m T = true) (hdom : listOk env T = true) (henv : EnvOk env) (hf : KeepsBlank f) :
+    Hypotheses: those of `structure_preserved_partial` only — for EVERY `f`.  (Before fix ce82919
+    `py:attrs` dropped a value that was blank after trimming: the one place where the text of a value
+    decided whether an attribute exists; the theorem then needed `KeepsBlank f`.) -/
+theorem payload_is_data (m : Method) (strip : Bool) (T : List Subst.Node) (env : Env) (f : List Char → List Char)
+    (hT : nodesOkB m T = true) (hdom : listOk env T = true) (henv : EnvOk env) :
     ∃ out out',
       readDoc m (serialize m strip (renderList env T)) = some out ∧
-      readDoc m (serialize m strip (renderList (env.map (·.retext f)) (Node.retextList f T))) = some out' ∧
+      readDoc m (serialize m strip (renderList (env.map (·.retext f)) (Subst.Node.retextList f T))) = some out' ∧
       tagsOf out' = tagsOf out := by
   have h1 := structure_preserved_partial m strip T env hT hdom henv
-  have h2 := structure_preserved_partial m strip (Node.retextList f T) (env.map (·.retext f))
+  have h2 := structure_preserved_partial m strip (Subst.Node.retextList f T) (env.map (·.retext f))
     (by rw [nodesOkB_retext]; exact hT) (by rw [listOk_retext]; exact hdom) (envOk_retext f env henv)
   refine ⟨_, _, h1, h2, ?_⟩
-  have hsk := list_skel f hf T env
+  have hsk := list_skel f T env
   cases strip with
   | false =>
     simp only [Bool.false_eq_true, ↓reduceIte, tagsOf_coalesce]
@@ -576,7 +617,7 @@ theorem payload_is_data (m : Method) (strip : Bool) (T : List Node) (env : Env) 
 
 /-- The rendered stream of a template of the grammar is always one the serializer / reader
     theorems apply to, and its START / END skeleton is the template's. -/
-theorem render_stream_ok (m : Method) (T : List Node) (env : Env)
+theorem render_stream_ok (m : Method) (T : List Subst.Node) (env : Env)
     (hT : nodesOkB m T = true) (hdom : listOk env T = true) (henv : EnvOk env) :
     (∀ e ∈ renderList env T, evOkB m e = true) ∧ TextsOk (renderList env T) ∧
     emptyOkGo m none (renderList env T) = true := by
@@ -621,6 +662,86 @@ theorem attr_name_not_escaped :
       = ['<', 'a', ' ', 'x', '>', '<', 'b', '=', '"', '1', '"', '/', '>'] := by
   decide
 
+/-! ## the serializers' event cache and the `noescape` flag of `HTMLSerializer`
+
+  `serialize` (all theorems above) is the loop without the per-render event cache; `serializeC` is
+  the loop as it is written, with the cache and with the flag kept in the cache-hit branch as well
+  as in the uncached branches. -/
+
+/-- The event cache is unobservable on START / END / TEXT streams: for every stream, method and
+    whitespace setting the loop with its cache writes what the loop without one writes (raw text
+    bypasses the cache; the flag is kept on a cache hit exactly as on a miss). -/
+theorem cache_unobservable (m : Method) (strip : Bool) (evs : List Ev) :
+    serializeC m strip evs = serialize m strip evs :=
+  serializeC_eq_serialize m strip evs
+
+/-- After an END event the flag is `false`, whatever was written before it, whatever the flag was
+    and whatever the cache holds: what follows an end tag is written as at the start of a render. -/
+theorem noescape_cleared_by_end (m : Method) (c : Cache) (hc : CacheOk m c) (ne : Bool)
+    (pre : List Tok) (t : Subst.Name) (rest : List Tok) :
+    serToksC m c ne (pre ++ .close t :: rest) = serToks m ne (pre ++ [.close t]) ++ serToks m false rest := by
+  rw [serToksC_eq_serToks m _ c ne hc]
+  have : pre ++ .close t :: rest = (pre ++ [.close t]) ++ rest := by simp
+  rw [this, serToks_append, flagRun_close]
+
+/-- Hence a not-safe value in text position directly after any end tag, or after further start tags
+    of ordinary elements, is escaped — however many raw-text elements were written (and cached)
+    before it. -/
+theorem site_after_end_is_escaped (m : Method) (c : Cache) (hc : CacheOk m c) (ne : Bool)
+    (pre : List Tok) (t : Subst.Name) (opens : List (Subst.Name × List (Subst.Name × List Char)))
+    (hopens : ∀ p ∈ opens, (noescapeElems m).contains p.1 = false) (v : List Char) (rest : List Tok) :
+    serToksC m c ne (pre ++ .close t :: (opens.map fun p => Tok.open p.1 p.2) ++ .text v false :: rest) =
+      serToks m ne (pre ++ [.close t]) ++ (opens.flatMap fun p => emitOpen m p.1 p.2) ++ emitText m v ++
+        serToks m false rest := by
+  have h := noescape_cleared_by_end m c hc ne pre t ((opens.map fun p => Tok.open p.1 p.2) ++ .text v false :: rest)
+  simp only [List.append_assoc, List.cons_append] at h ⊢
+  rw [h]
+  congr 1
+  clear h
+  induction opens with
+  | nil => simp [serToks]
+  | cons p ps ih =>
+    have hp := hopens p List.mem_cons_self
+    simp only [List.map_cons, List.cons_append, serToks, hp, Bool.or_false, List.flatMap_cons, List.append_assoc]
+    rw [ih (fun q hq => hopens q (List.mem_cons_of_mem _ hq))]
+
+/-- Which text is escaped depends on the enclosing elements only: for a stream whose raw-text
+    elements have no element children, the loop (cache, flag) writes what `serEncl` writes, which
+    has no flag — a plain text is raw exactly when the innermost open element is `script`/`style`
+    under html. -/
+theorem escaping_by_enclosing_elements (m : Method) (toks : List Tok) (h : rawLeafGo m [] toks = true) :
+    serToksC m [] false toks = serEncl m [] toks := by
+  rw [serToksC_eq_serToks m _ [] false (cacheOk_nil m)]
+  exact serToks_eq_serEncl m toks [] (by simp [stackOk]) h
+
+def scriptName : Subst.Name := ['s', 'c', 'r', 'i', 'p', 't']
+
+/-- two identical `script` elements (the second START, TEXT-free END are served from the cache), then a
+    hostile value in text position: escaped -/
+theorem two_scripts_then_site_escaped :
+    serializeC .html false [.start ['r'] [], .start scriptName [], .text ['1', '<', '2'] false, .end_ scriptName,
+                            .start scriptName [], .text ['1', '<', '2'] false, .end_ scriptName,
+                            .text ['<', 'b', '>'] false, .end_ ['r']]
+      = ['<', 'r', '>', '<', 's', 'c', 'r', 'i', 'p', 't', '>', '1', '<', '2', '<', '/', 's', 'c', 'r', 'i', 'p', 't', '>',
+         '<', 's', 'c', 'r', 'i', 'p', 't', '>', '1', '<', '2', '<', '/', 's', 'c', 'r', 'i', 'p', 't', '>',
+         '&', 'l', 't', ';', 'b', '&', 'g', 't', ';', '<', '/', 'r', '>'] := by
+  decide
+
+/-- an empty raw-text element (EMPTY event) does not switch escaping off -/
+theorem empty_script_keeps_escaping :
+    serializeC .html false [.start ['r'] [], .start scriptName [], .end_ scriptName, .text ['<'] false, .end_ ['r']]
+      = ['<', 'r', '>', '<', 's', 'c', 'r', 'i', 'p', 't', '>', '<', '/', 's', 'c', 'r', 'i', 'p', 't', '>',
+         '&', 'l', 't', ';', '<', '/', 'r', '>'] := by
+  decide
+
+example : rawLeafGo .html [] (emptyTags [.start ['r'] [], .start scriptName [], .text ['1', '<', '2'] false,
+    .end_ scriptName, .start scriptName [], .text ['1', '<', '2'] false, .end_ scriptName,
+    .text ['<', 'b', '>'] false, .end_ ['r']]) = true := by decide
+example : CacheOk .html [(.close scriptName, emitClose scriptName)] := by
+  intro k v h; simp at h; obtain ⟨rfl, rfl⟩ := h; rfl
+example : rawLeafGo .html [] [.open scriptName [], .open ['b'] [], .close ['b'], .text ['<'] false, .close scriptName] = false := by
+  decide
+
 /-! ## non-vacuity -/
 example : readText (emitText .html ['<', 's', 'c', 'r', 'i', 'p', 't', '>', '&'] ++ ['<', '/', 'p', '>'])
     = ['<', 's', 'c', 'r', 'i', 'p', 't', '>', '&'] := by decide
@@ -643,7 +764,7 @@ example : (fillEsc examplePieces [['"', '>', '<'], ['<', '/', 'a', '>']]).map (f
           .text ['1', '0', '0', '%', ' ', '<', '/', 'a', '>'] false, .end_ ['a']] := by decide
 
 /-- `<p>${Markup('<a href="%s" class="x&#34;y">100%% %s</a>') % (u, v)}!</p>` -/
-def exampleM : List Node :=
+def exampleM : List Subst.Node :=
   [.el ['p'] [] none
     [.site (.fmtp examplePieces [.lit (.str ['"', '>', '<']), .lit (.str ['<', '/', 'a', '>'])]), .lit ['!']]]
 
@@ -655,9 +776,14 @@ example : readDoc .html (serialize .html false (renderList [] exampleM)) =
           .text ['1', '0', '0', '%', ' ', '<', '/', 'a', '>'] false, .end_ ['a'],
           .text ['!'] false, .end_ ['p']] := by decide
 
+example : nodesOkW .html exampleM = true ∧ nodesOkW .xhtml exampleM = true := by decide
+
+example : readDoc .html (serialize .html true (renderList [] exampleM)) =
+    some (coalesceStrip .html (expectedList [] exampleM)) := by decide
+
 /-- a template with an interpolated attribute, `py:attrs`, a loop, a `Markup` operator and a
     builder call: inside the hypotheses of `structure_preserved` for all methods -/
-def exampleT : List Node :=
+def exampleT : List Subst.Node :=
   [.el ['d', 'i', 'v'] [(['i', 'd'], .interp [.lit ['x', '-'], .expr (.val (.one (.str ['"', '>', '<']))) ])]
       (some [(['t', 'i', 't', 'l', 'e'], .lit (.str [' ', '<', 'b', '>', ' ']))])
       [.loop (.val (.many [.str ['<', 'i', '>'], .num ['4', '2'], .none]))
